@@ -163,22 +163,41 @@ pub fn catch<T>(f: impl FnOnce() -> T) -> Result<T, Panic> {
     }
 }
 
-/// Run `n_shards` shard closures over `threads` OS threads and collect results
-/// in shard order.
+static PART: std::sync::atomic::AtomicUsize = std::sync::atomic::AtomicUsize::new(0);
+static PARTS: std::sync::atomic::AtomicUsize = std::sync::atomic::AtomicUsize::new(1);
+
+/// Restrict this process to the shards `s` with `s % parts == part` (used to spread a
+/// workload over several slow interpreter processes, e.g. Miri).
+pub fn set_partition(part: usize, parts: usize) {
+    PART.store(part, std::sync::atomic::Ordering::SeqCst);
+    PARTS.store(parts.max(1), std::sync::atomic::Ordering::SeqCst);
+}
+
+pub fn partition() -> (usize, usize) {
+    (PART.load(std::sync::atomic::Ordering::SeqCst), PARTS.load(std::sync::atomic::Ordering::SeqCst))
+}
+
+/// Run the shard closures of this process's partition over `threads` OS threads and
+/// collect the results in shard order.
 pub fn par_shards<T: Send>(n_shards: usize, threads: usize, f: impl Fn(usize) -> T + Sync) -> Vec<T> {
     use std::sync::atomic::{AtomicUsize, Ordering};
     use std::sync::Mutex;
+    let (part, parts) = partition();
+    let mine: Vec<usize> = (0..n_shards).filter(|s| s % parts == part).collect();
+    if threads <= 1 {
+        return mine.into_iter().map(&f).collect();
+    }
     let next = AtomicUsize::new(0);
-    let out: Mutex<Vec<Option<T>>> = Mutex::new((0..n_shards).map(|_| None).collect());
-    let threads = threads.max(1).min(n_shards.max(1));
+    let out: Mutex<Vec<Option<T>>> = Mutex::new((0..mine.len()).map(|_| None).collect());
+    let threads = threads.min(mine.len().max(1));
     std::thread::scope(|s| {
         for _ in 0..threads {
             s.spawn(|| loop {
                 let i = next.fetch_add(1, Ordering::Relaxed);
-                if i >= n_shards {
+                if i >= mine.len() {
                     break;
                 }
-                let r = f(i);
+                let r = f(mine[i]);
                 out.lock().unwrap()[i] = Some(r);
             });
         }
